@@ -5,6 +5,7 @@ import (
 	"errors"
 	"fmt"
 	"strconv"
+	"sync/atomic"
 	"time"
 
 	nats "github.com/nats-io/nats.go"
@@ -31,10 +32,12 @@ type queryRequest struct {
 }
 
 type queryEvent struct {
-	r   resource
-	sub *nats.Subscription
-	ch  chan *nats.Msg
-	cb  func(r QueryRequest)
+	r       resource
+	sub     *nats.Subscription
+	ch      chan *nats.Msg
+	cb      func(r QueryRequest)
+	done    chan struct{} // Closed when the query event has expired
+	expired int32         // Set once the callback has been called with nil
 }
 
 // Model sends a model response for the query request.
@@ -130,11 +133,17 @@ func (qr *queryRequest) Timeout(d time.Duration) {
 
 // startQueryListener listens for query requests and passes them on to a worker.
 func (qe *queryEvent) startQueryListener() {
-	for m := range qe.ch {
-		m := m
-		qe.r.s.runWith(qe.r.Group(), func() {
-			qe.handleQueryRequest(m)
-		})
+	for {
+		select {
+		case m := <-qe.ch:
+			qe.r.s.runWith(qe.r.Group(), func() {
+				qe.handleQueryRequest(m)
+			})
+		case <-qe.done:
+			// The channel is never closed by NATS. Stop listening once
+			// the query event has expired.
+			return
+		}
 	}
 }
 
@@ -142,6 +151,12 @@ func (qe *queryEvent) startQueryListener() {
 func (qe *queryEvent) handleQueryRequest(m *nats.Msg) {
 	s := qe.r.s
 	s.tracef("Q=> %s: %s", qe.r.rname, m.Data)
+
+	// The callback must not be called after it has been called with nil
+	if atomic.LoadInt32(&qe.expired) != 0 {
+		s.errorf("Query request received after query event expired: %s", qe.r.rname)
+		return
+	}
 
 	qr := &queryRequest{
 		resource: qe.r,
